@@ -1,5 +1,5 @@
 """Native DeFi column at ledger level: Pools (C41), Validator (C42).  Harness binary: vh_pools."""
-import json, os, collections
+import json, os, re, collections
 import core
 from core import tlc, tlc_must_pass, vh, ToolError, write_ndjson, read_ndjson, validate_trace
 from concurrent.futures import ThreadPoolExecutor
@@ -13,6 +13,13 @@ def big(v):
     for x in reversed(v["l"]):
         n = n * 10000 + x
     return n * v["s"]
+
+
+def rm(p):
+    try:
+        os.unlink(p)
+    except FileNotFoundError:
+        pass
 
 
 def split_runs(evs):
@@ -42,7 +49,7 @@ def validate_chunks(ctx, spec_dir, module, evs, max_chunks=4, heap="2g", timeout
         p = ctx.wpath("%s-%s-chunk%d.ndjson" % (module, tag, i))
         write_ndjson(p, chunks[i])
         ok, idx, r = validate_trace(spec_dir, module, p, heap=heap, timeout=timeout)
-        os.unlink(p)
+        rm(p)
         return ok, idx, r, chunks[i]
 
     with ThreadPoolExecutor(max_workers=n) as ex:
@@ -63,9 +70,9 @@ def harness_parallel(ctx, module, mode, inputs=None, nproc=4, args_of=None, tag=
             write_ndjson(pin, part)
         vh(BIN, [module, mode] + (args_of(i) if args_of else []), stdin_path=pin, stdout_path=pout, timeout=7200)
         evs = read_ndjson(pout)
-        os.unlink(pout)
+        rm(pout)
         if pin:
-            os.unlink(pin)
+            rm(pin)
         if not evs or evs[-1].get("a") != "end":
             raise ToolError("harness %s %s did not finish" % (module, mode))
         return evs
@@ -104,8 +111,8 @@ def _pools_validate(ctx, evs, what, stats, max_chunks=4):
     res = validate_chunks(ctx, "Pools", "TracePools", evs, max_chunks=max_chunks, tag=what.split()[0])
     for ok, idx, r, ch in res:
         ctx.cov["evaluations"] += len(ch)
-        gains = {(int(a), int(b)) for a, b in __import__("re").findall(r'<<"GAIN", (\d+), (\d+)>>', r.out)}
-        infos = {int(a) for a in __import__("re").findall(r'<<"INFO-MINT", (\d+)>>', r.out)}
+        gains = {(int(a), int(b)) for a, b in re.findall(r'<<"GAIN", (\d+), (\d+)>>', r.out)}
+        infos = {int(a) for a in re.findall(r'<<"INFO-MINT", (\d+)>>', r.out)}
         stats["mint_above_prorata_of_accepted"] += len(infos)
         for l, k in sorted(gains):
             # the run (from its reset) up to the redeeming step is the replay
@@ -164,7 +171,7 @@ def _pools_selftest(ctx, evs):
         p = ctx.wpath("pools-selftest-%s.ndjson" % kind)
         write_ndjson(p, bad)
         ok, idx, r = validate_trace("Pools", "TracePools", p)
-        os.unlink(p)
+        rm(p)
         if ok or idx != len(bad):
             raise ToolError("binding self-test failed: TracePools accepted a trace with %s (or rejected it elsewhere: %s)" % (kind, idx))
         return kind
@@ -274,6 +281,12 @@ def C41(ctx):
 # ---------------------------------------------------------------------------------------------
 # C42 validator staking, emissions, active set
 VAL_ACTIONS = ["DoStake", "DoUnstake", "DoClaim", "DoRegister", "DoFee", "DoEpoch"]
+# DESIGN L7 on the real ledger: 13 registered validators in ONE 100k bucket, max_validators = 1, so the index scan
+# (max + max/10 + 10 = 11 entries) cannot see them all; the specification must accept whatever member of the bucket is chosen
+L7_CASE = {"stakes": [str(100000 + 7 * i) for i in range(13)], "emission": "100", "minrel": "0", "maxv": 1, "unstake": 1,
+           "ops": [{"op": "epoch", "leader": 0}, {"op": "stake", "v": 13, "u": 1, "amt": "one"},
+                   {"op": "stake", "v": 5, "u": 2, "amt": "mid"}, {"op": "round", "leader": 0}, {"op": "epoch", "leader": 0},
+                   {"op": "unregister", "v": 1}, {"op": "round", "leader": 0}, {"op": "epoch", "leader": 0}]}
 
 
 def _val_event_brief(e):
@@ -297,7 +310,6 @@ def _val_event_brief(e):
 
 
 def _val_validate(ctx, evs, what, stats, max_chunks=4):
-    import re
     res = validate_chunks(ctx, "Validator", "TraceValidator", evs, max_chunks=max_chunks, tag=what.split()[0])
     for ok, idx, r, ch in res:
         ctx.cov["evaluations"] += len(ch)
@@ -363,7 +375,7 @@ def _val_selftest(ctx, evs):
         p = ctx.wpath("val-selftest-%s.ndjson" % kind)
         write_ndjson(p, bad)
         ok, idx, r = validate_trace("Validator", "TraceValidator", p)
-        os.unlink(p)
+        rm(p)
         if ok or idx != len(bad):
             raise ToolError("binding self-test failed: TraceValidator accepted a trace with %s (or rejected it elsewhere: %s)" % (kind, idx))
         return kind
@@ -394,7 +406,7 @@ def C42(ctx):
         if len(seqs) < nseq:
             raise ToolError("GenValidator produced only %d sequences" % len(seqs))
         ctx.sample({"generated_history": {k: (v if k != "ops" else v[:8]) for k, v in seqs[0].items()}})
-        ev_g = harness_parallel(ctx, "validator", "run", seqs, 4 if q else 6, None, "g")
+        ev_g = harness_parallel(ctx, "validator", "run", [L7_CASE] + seqs, 4 if q else 6, None, "g")
         ev_t = f_t.result()
         f_vg = ex.submit(_val_validate, ctx, ev_g, "generated histories", stats, 4 if q else 8)
         f_vt = ex.submit(_val_validate, ctx, ev_t, "seeded histories", stats, 2 if q else 6)
@@ -422,12 +434,21 @@ def C42(ctx):
     committed = [e for e in allev if e["out"] == "commit"]
     distinct = len({json.dumps([e["a"], e.get("v"), e.get("u"), e.get("x"), e["val"], e.get("set")], sort_keys=True) for e in committed})
     set_sizes = collections.Counter(len(e["set"]) for e in epochs)
+    # information: how often the chosen set is NOT the exact-stake top (allowed inside a bucket, DESIGN L7)
+    inversions = 0
+    for e in ev_g + ev_t:
+        if e["a"] in ("reset", "epoch") and e.get("out", "commit") == "commit":
+            members = {x["v"] for x in e["aset"]}
+            low = min([big(x["stake"]) for x in e["aset"]] or [0])
+            if any(v["reg"] and big(v["stake"]) > low and (i + 1) not in members for i, v in enumerate(e["val"])) and members:
+                inversions += 1
     return {"distinct_nontrivial": distinct, "exhaustive": False,
             "transactions_generated_histories": sum(1 for e in ev_g if e["a"] not in ("reset", "end")),
             "transactions_seeded_histories": sum(1 for e in ev_t if e["a"] not in ("reset", "end")),
             "outcomes": dict(tally), "error_classes": dict(errs), "epoch_changes": len(epochs),
             "epoch_changes_with_emission": sum(1 for e in epochs if e["em"]),
             "active_set_sizes": {str(k): v for k, v in set_sizes.items()},
+            "sets_not_exact_stake_top_within_bucket": inversions,
             "stake_unstake_gain_hits": stats["gain_hits"], "binding_selftests": selftests,
             "rule": "S: MCValidator (TLC integers, 3 validators, 2 users, bucket = stake div 2): all histories of 3 operations and EVERY "
                     "admissible mint / claim amount / emission / reward / owner-unit mint; the active set is produced by a model of the "
